@@ -172,3 +172,89 @@ Definition recount (b : cstate) : recount_t :=
             (N.of_nat (length (filter (fun kv => e_phy (snd kv) && negb (out_for_estimation b (fst kv))) (objs b))))
             (fold_right (fun kv acc => if e_phy (snd kv) && negb (out_for_estimation b (fst kv))
                                        then h_size (e_hdr (snd kv)) + acc else acc) 0 (objs b)).
+
+(* what DB.ObjectCounters / DB.GetContainerInfo report for one bucket vs the recount *)
+Definition typed_ok (b : cstate) : bool :=
+  let r := recount b in let n := cnt b in
+  (c_phy n =? r_phy r) && (c_root n =? r_root r) && (c_ts n =? r_ts r) && (c_lock n =? r_lock r) && (c_link n =? r_link r).
+Definition info_of (b : cstate) : N * N :=
+  if cgc b then (0, 0) else
+  (c_payload (cnt b), if c_gc (cnt b) <? c_phy (cnt b) then c_phy (cnt b) - c_gc (cnt b) else 0).
+Definition info_ok (b : cstate) : bool :=
+  let r := recount b in (fst (info_of b) =? r_size r) && (snd (info_of b) =? r_objects r).
+Definition counters_ok (s : state) : bool :=
+  forallb (fun cb : cid * cstate => typed_ok (snd cb) && info_ok (snd cb)) (cnrs s).
+
+(* no counter can have wrapped: object count and total payload stay below 2^64 *)
+Definition fits (s : state) : bool :=
+  forallb (fun cb : cid * cstate =>
+             N.of_nat (length (objs (snd cb))) + fold_right (fun kv acc => h_size (e_hdr (snd kv)) + acc) 0 (objs (snd cb))
+             <? 18446744073709551616) (cnrs s).
+
+(* ---- C02: the fragment of histories on which the counters are proved exact.
+   An operation outside it is one of the known drift classes (reason code):
+     2 relations           objects with family relations (parent/first/split/EC), see notes/C02.md
+     3 put-on-marked-id    Put of an ID that carries a garbage mark or a tombstone
+     4 tombstone-target    tombstone whose target is not a stored, unmarked, regular object
+     5 mark-unstored       garbage mark for an ID that is not stored
+     6 revive-multi-tomb   revival of an object with more than one tombstone
+     7 (not a defect)      the state no longer fits 64-bit counters *)
+Definition simple_hdr (h : hdr) : bool :=
+  match h_parent h, h_first h, h_split h, h_ecr h, h_eci h with
+  | None, None, None, None, None => true
+  | _, _, _, _, _ => false
+  end.
+Definition simple_obj (o : obj) : bool :=
+  simple_hdr (o_hdr o) && match o_par o with None => true | Some _ => false end.
+
+Definition count_tombs (b : cstate) (o : oid) : nat :=
+  length (filter (fun kv => is_type TTombstone (snd kv) && targets o (snd kv)) (objs b)).
+
+Definition unclean_put (b : cstate) (o : obj) : N :=
+  if negb (simple_obj o) then 2
+  else if any_mark b (o_id o) || tombstoned b (o_id o) then 3
+  else match h_typ (o_hdr o), h_assoc (o_hdr o) with
+       | TTombstone, Some x =>
+           match sm_get x (objs b) with
+           | Some en => if is_type TRegular en && negb (out_for_estimation b x) && negb (x =? o_id o) then 0 else 4
+           | None => 4
+           end
+       | _, _ => 0
+       end.
+
+Definition unclean_op (s : state) (o : op) : N :=
+  match o with
+  | OPut c ob => unclean_put (bucket_or_new s c) ob
+  | OBatch os =>
+      (fix go (s : state) (l : list (cid * obj)) : N :=
+         match l with
+         | [] => 0
+         | (c, ob) :: r =>
+             let u := unclean_put (bucket_or_new s c) ob in
+             if u =? 0 then go (fst (step s (OPut c ob))) r else u
+         end) s os
+  | OMark c ids _ =>
+      match sm_get c (cnrs s) with
+      | Some b => if cgc b then 0 else if forallb (fun id => sm_mem id (objs b)) ids then 0 else 5
+      | None => 0
+      end
+  | ORevive c id =>
+      match sm_get c (cnrs s) with
+      | Some b => if cgc b then 0 else if Nat.leb 2 (count_tombs b id) then 6 else 0
+      | None => 0
+      end
+  | _ => 0
+  end.
+
+(* first operation of a history outside the fragment: (index, reason) *)
+Fixpoint first_unclean (k : nat) (s : state) (h : list op) : option (nat * N) :=
+  match h with
+  | [] => None
+  | o :: r => let u := unclean_op s o in
+              if u =? 0 then
+                let s' := fst (step s o) in
+                if fits s' then first_unclean (S k) s' r else Some (k, 7)
+              else Some (k, u)
+  end.
+Definition clean_hist (h : list op) : bool :=
+  match first_unclean 0 state0 h with None => true | Some _ => false end.
